@@ -315,6 +315,7 @@ fn protocol_matrix(rng: &mut Rng, rep: &mut Report) {
         ("colless+sackin", |t| { let _ = t.colless(); let _ = t.sackin(); }),
     ];
     let edits = ["prune-leaf", "add-leaf", "rename-leaf", "rescale", "merge-siblings", "compress", "rename-then-prune"];
+    let mut cell = rng.below(1000);
     for round in 0..2 {
         let size = rng.range(5, 12);
         let mut t = random_shape(rng, size);
@@ -355,7 +356,9 @@ fn protocol_matrix(rng: &mut Rng, rep: &mut Report) {
                     continue;
                 };
                 let t2 = tree.clone();
-                let b_edit = match guarded(std::panic::AssertUnwindSafe(|| battery(&t2, &[20, 21, 3]))) { Ok(b) => b, Err(_) => { rep.oracle("no-panic", "protocol:battery", &ctx, "panic"); continue; } };
+                // the FIRST query after the reset rotates over the whole battery (whichever query comes first must fill what it needs)
+                cell += 1;
+                let b_edit = match guarded(std::panic::AssertUnwindSafe(|| battery(&t2, &[cell, 20, 21, 3]))) { Ok(b) => b, Err(_) => { rep.oracle("no-panic", "protocol:battery", &ctx, "panic"); continue; } };
                 let b_fresh = battery(&fresh, &[]);
                 if let Some((q, a, b)) = diff(&b_edit, &b_fresh) {
                     rep.oracle("fresh-parse", &format!("protocol:{q}"), &format!("{ctx}\nbattery\t{q}"), &format!("edited: {a}\nfresh : {b}"));
